@@ -26,7 +26,9 @@ SPEC = Spec(
     pid="C02",
     post=_post,
     # shared with C01 (same generator, same file): key names and radix of getItemKey, for C02_item_keys_never_collide_with_metadata
-    translators=[go_translator("pqkeys", "OtelVerif/Gen/PQKeys.lean")],
+    translators=[go_translator("pqkeys", "OtelVerif/Gen/PQKeys.lean"),
+                 # own: guard tables of Offer / add / putInternal and the Signal/Broadcast call sites, consumed by C02_*_regenerated
+                 go_translator("queueguards", "OtelVerif/Gen/QueueGuards.lean")],
     lean_modules=["OtelVerif.Props.C02"],
     harnesses=[
         Harness(name="cond", module="exporter", pkg=_PKG, files={"zz_verif_c02_cond_test.go": "c02/cond_test.go"},
@@ -37,6 +39,12 @@ SPEC = Spec(
                 test="TestVerifC02Persistent", driver="drv_c02", go="go1.26", n={"quick": 4000, "thorough": 60000}, timeout_s=1500),
         Harness(name="soak", module="exporter", pkg=_PKG, files={"zz_verif_c02_soak_test.go": "c02/soak_test.go", "zz_verif_c02_queue_test.go": "c02/queue_test.go"},
                 test="TestVerifC02Soak", driver="drv_c02", go="go1.26", n={"quick": 300, "thorough": 30000}, timeout_s=1500),
+        Harness(name="pqsize", module="exporter", pkg=_PKG, files={"zz_verif_c02_pqsize_test.go": "c02/pqsize_test.go"},
+                test="TestVerifC02PQSize", driver="drv_c02", go="go1.26", n={"quick": 4000, "thorough": 120000}, timeout_s=1500),
+        Harness(name="async", module="exporter", pkg=_PKG, files={"zz_verif_c02_async_test.go": "c02/async_test.go"},
+                test="TestVerifC02Async", driver="drv_c02", go="go1.26", n={"quick": 3000, "thorough": 60000}, timeout_s=1500),
+        Harness(name="validate", module="exporter", pkg=_PKG, files={"zz_verif_c02_validate_test.go": "c02/validate_test.go"},
+                test="TestVerifC02Validate", driver="drv_c02", go="go1.26", n={"quick": 4000, "thorough": 60000}, timeout_s=900),
         Harness(name="config", module="exporter", pkg="exporter/exporterhelper/internal", files={"zz_verif_c02_config_test.go": "c02/config_test.go"},
                 test="TestVerifC02Config", driver="drv_c02", go="go1.26", n={"quick": 1500, "thorough": 30000}, timeout_s=1500,
                 mod_append=["require go.opentelemetry.io/collector/pipeline/xpipeline v0.124.0",
@@ -62,8 +70,32 @@ SPEC = Spec(
          "queue/persistent scripts also contain: corpus cases 0-1 (head-of-line witness; Shutdown with two blocked producers), burst labels, "
          "mid-run Shutdown (persistent: blocked contexts are ended first, no Offer afterwards), and for the persistent queue a restart "
          "pre-phase (1/4 of the cases: an earlier life leaves 1-6 requests, optionally a stale `si` snapshot, this life may have a smaller "
-         "capacity; `op restore`). distinct = distinct op sequences (sha1 of the op lines).",
+         "capacity; `op restore`). pqsize (round 2/second session): the real non-blocking persistentQueue driven SEQUENTIALLY through several "
+         "lives on one mock storage (8-100 ops: offer of 0-5 items, read, completion - a seventh with a shutdown error -, Shutdown, restart with "
+         "or without a preceding Shutdown, with a new capacity and in a fifth of the restarts the other sizer; a third of the cases long enough "
+         "for the `wi % 10 == 5` / `ri % 10 == 0` back-ups); after every op Size(), ri, wi, the in-memory and the stored dispatched list, the "
+         "stored `si` snapshot and the stored requests are diffed against Model/C02R.lean; non-trivial = some restart restored a non-zero size. "
+         "async: the real asyncQueue (1-4 consumers) over the real memory / persistent queue in a synctest bubble; consumeFunc blocks on a "
+         "per-request gate (or returns at once and the script completes the Done later, as a batcher does); labels offer/cancel/release/done/"
+         "shutdown, at most one producer blocked at a time; Size(), queued ids, the SET of requests inside consumeFunc, Offer results and "
+         "'Shutdown returned' diffed against the pool LTS Model/C02A.lean. validate: Config.Validate / BatchConfig.Validate on configurations "
+         "drawn around the edges (0, -1, 1, storage x sizer x wait_for_result, batch x sizer), verdicts diffed against Model/C02V.lean. "
+         "config now also writes `storage` (a sixth of the cases: persistent queue through the real constructors, requests sizer, plain "
+         "shape; the model is pfire with the exporter's consumers parked at start). distinct = distinct op sequences (sha1 of the op lines).",
     trusted_base=[
+        "translator translators/cmd/queueguards (go/ast, own): guard sequence of memoryQueue.Offer, overflow loops of memoryQueue.add / "
+        "persistentQueue.putInternal (condition, guards before Wait, guards after the loop) and every Signal/Broadcast call site on the two "
+        "condition variables -> Gen/QueueGuards.lean; Model/C02G.lean interprets the tables and C02_offer_guards_regenerated / "
+        "C02_add_loop_regenerated / C02_put_loop_regenerated / C02_wakeup_sites_regenerated prove that the hand-written transitions ARE the "
+        "interpretation of the regenerated tables (trusted: the 40-line interpreter's reading of the operator/operand tokens)",
+        "Model/C02R.lean (persistent size accounting across lives: writeInternal, getNextItem's reset, onDone incl. shutdown error and "
+        "swap-with-last removal, backupQueueSize cadence from Gen/PQKeys, initPersistentContiguousStorage, retrieveAndEnqueueNotDispatchedReqs), "
+        "Model/C02A.lean (asyncQueue's consumer loop as a layer over fire/pfire), Model/C02V.lean (Config.Validate, BatchConfig.Validate): "
+        "hand-written, each tied by exact differential on every run (harnesses pqsize, async, validate)",
+        "fair-run theorems: an infinite run is a pair of functions Nat -> St / Nat -> Option Label with every instant a stutter or an enabled "
+        "label (IsRun / PIsRun); fairness is a HYPOTHESIS of the theorems (SchedFair / PSchedFair: whenever some goroutine step is enabled, "
+        "eventually some goroutine step is taken; ConsFair: whenever a request is queued or in flight, eventually one is taken or completed) - "
+        "that the Go scheduler, sync.Mutex and the exporter's consumers satisfy them is not proved",
         "translator translators/cmd/pqkeys (go/ast, owned by C01, reused): the four metadata key names and the radix of getItemKey -> "
         "Gen/PQKeys.lean, for C02_item_keys_never_collide_with_metadata (request identity in the persistent model)",
         "Lean 4.33.0 kernel; axioms per theorem listed under axioms_per_theorem (subset of propext, Classical.choice, Quot.sound)",
@@ -97,7 +129,18 @@ SPEC = Spec(
         "reported size exceeds the configured capacity right after such a restart (678 of 1015 generated restarts)",
         "C02_pinned_cond_deadlock is historical (about the cond.go that was in the tree before the fix); it is not a statement about the checked tree",
         "0 <= capacity; each producer goroutine issues one Offer per id",
-        "liveness is stated as stuck-freedom + no-lost-wake-up at quiescence; fairness of the Go scheduler and of sync.Mutex is assumed, not modelled",
+        "liveness: C02_fair_run_comes_to_rest / C02_fair_run_releases_all (memory) and C02_persistent_fair_run_comes_to_rest state it for "
+        "EVERY infinite run under explicit fairness hypotheses (minimal progress of the goroutines' own steps; consumers keep taking / "
+        "completing; no new Offer / cancel / shutdown from some instant on). With offers arriving for ever a blocked producer can be overtaken "
+        "again and again (every waiter re-checks after every completion, none has priority): per producer only the re-check is guaranteed "
+        "(C02_fair_waiter_rechecks, under weak fairness of that producer's goroutine), not the admission. "
+        "The persistent queue has no 'every fair run releases every producer' theorem (only: comes to rest, and at rest whoever is blocked does not fit)",
+        "pqsize / Model/C02R: storage operations never fail and stored items decode (C01 owns those branches); no Offer after Shutdown; a Done of "
+        "an earlier life is not completed after a restart; sizes >= 0. C02_pq_* are about the model, tied by differential (no translator for "
+        "initPersistentContiguousStorage / retrieveAndEnqueueNotDispatchedReqs beyond the back-up cadence constants)",
+        "async / Model/C02A: consumeFunc is the environment (it returns when it returns); Shutdown's stopWG.Wait() is C03's; the differential keeps at "
+        "most one producer blocked at a time and fixes the one order the pool really has a race in (a consumer that completes its request goes "
+        "straight on to the next Read before the producers woken by that completion re-lock: one P, no blocking call in between)",
         "the run-to-quiescence harnesses fire internal steps eagerly; schedules in which a context ends and a signal arrives before the "
         "waiter runs are exercised at cond level only through the lock hand-over order",
     ],
